@@ -806,8 +806,13 @@ def check_C19(ctx):
     cases = []
     toks = ["v", "w", "bad1", "x y", "true", "7"]
     envs = [None, "", "e1", "bad0", "e1, e2", "e1,bad2,e3"]
-    for isbool, clear, isdef in itertools.product([False, True], repeat=3):
+    combos = [(b, c, d, False) for b, c, d in itertools.product([False, True], repeat=3)]
+    combos += [(True, c, d, True) for c, d in itertools.product([False, True], repeat=2)]   # IsBoolFlag() present, answers false
+    for isbool, clear, isdef, boolfalse in combos:
         cu = {"isbool": isbool, "clear": clear, "isdef": isdef, "isdefval": rng.random() < 0.5}
+        if boolfalse:
+            cu["isboolfalse"] = True
+        flag = isbool and not boolfalse
         for isopt in (True, False):
             for env_vals in itertools.product(envs, repeat=2):
                 for n in (0, 1, 2, 3):
@@ -818,9 +823,13 @@ def check_C19(ctx):
                         if isopt:
                             argv, real = [], []
                             for t in bound:
-                                if isbool and rng.random() < 0.4:
+                                if flag and rng.random() < 0.4:
                                     argv.append(rng.choice(["-x", "--val"]))
                                     real.append("true")
+                                elif not flag and rng.random() < 0.5:
+                                    # a valued option: separate and attached spellings too
+                                    argv += rng.choice([["-x", t], ["--val", t], ["-x" + t]])
+                                    real.append(t)
                                 else:
                                     argv.append(rng.choice(["-x=" + t, "--val=" + t]))
                                     real.append(t)
